@@ -131,6 +131,12 @@ class _VarArgsRemover(ast.NodeTransformer):
                           if not self.drop_kwargs or kw.arg is not None])
 
 
+# Names of the temporaries that the inlined code assigns (by ":=") in the scope
+# of the method it is inlined into. The prefix keeps them from capturing a
+# local variable of that method ("result" is a popular name).
+_TMP_PREFIX = "_pymbolic_opt_"
+
+
 class _RecInliner(ast.NodeTransformer):
     def __init__(self, *, inline_rec, inline_cache):
         self.inline_rec = inline_rec
@@ -181,13 +187,16 @@ class _RecInliner(ast.NodeTransformer):
             if self.inline_rec:
                 result_expr = IfExp(
                     test=is_not_none(
-                        expr_assign("mname",
+                        expr_assign(_TMP_PREFIX + "mname",
                             getattr_sym(expr, Constant(value="mapper_method")))),
                     body=IfExp(
                         test=is_not_none(
-                            expr_assign("method", getattr_sym(
-                                    self_sym, Name(id="mname", ctx=Load())))),
-                        body=_replace(node, func=Name(id="method", ctx=Load())),
+                            expr_assign(_TMP_PREFIX + "method", getattr_sym(
+                                    self_sym,
+                                    Name(id=_TMP_PREFIX + "mname", ctx=Load())))),
+                        body=_replace(
+                            node,
+                            func=Name(id=_TMP_PREFIX + "method", ctx=Load())),
                         orelse=fallback_call),
                     orelse=fallback_call)
 
@@ -203,21 +212,21 @@ class _RecInliner(ast.NodeTransformer):
                 result_expr = IfExp(
                         test=Compare(
                             left=expr_assign(
-                                "result",
+                                _TMP_PREFIX + "result",
                                 Call(
                                     func=Attribute(value=cache, attr="get"),
                                     args=[
                                         expr_assign(
-                                            "cache_key",
+                                            _TMP_PREFIX + "cache_key",
                                             cache_key_expr),
                                         nic
                                         ], keywords=[])),
                                 ops=[IsNot()], comparators=[nic]),
-                        body=Name(id="result", ctx=Load()),
+                        body=Name(id=_TMP_PREFIX + "result", ctx=Load()),
                         orelse=Call(
                             func=Name(id="_set_and_return", ctx=Load()),
                             args=[cache,
-                                    Name(id="cache_key", ctx=Load()),
+                                    Name(id=_TMP_PREFIX + "cache_key", ctx=Load()),
                                     result_expr], keywords=[]))
 
         return result_expr
